@@ -479,8 +479,10 @@ func runDelivery(c DeliveryCase) (*dStats, error) {
 			if !bytes.Equal(g.p.Payload, g.snap) {
 				return st, fmt.Errorf("reader %d (%s): the payload of a delivered packet (seq %d) changed after delivery (receive buffer reused)", ri, r.proto, wp.seq)
 			}
-			if want, ok := r.ssrc[g.media]; ok && c.Formats[g.media] == 1 && g.p.SSRC != want {
-				return st, fmt.Errorf("reader %d (%s): packet SSRC %08x, the SETUP response announced %08x", ri, r.proto, g.p.SSRC, want)
+			// an ssrc in the SETUP response names the synchronisation source of what will arrive for that media: whenever one
+			// is announced (the server does so for single-format medias), every packet of the media carries it
+			if want, ok := r.ssrc[g.media]; ok && g.p.SSRC != want {
+				return st, fmt.Errorf("reader %d (%s): packet of media %d format %d carries SSRC %08x, the SETUP response for that media announced %08x", ri, r.proto, g.media, g.format, g.p.SSRC, want)
 			}
 			lastIdx[k] = found
 			if have[k] == nil {
